@@ -124,7 +124,7 @@ SEMANTIC_RULES = {
     "dot_contracted_in_three_inputs", "dot_contracted_in_one_input", "dot_single_input", "get_at_two_marked_coordinate_axes", "get_at_coordinate_count",
     "get_at_single_input", "sort_needs_exactly_one_bracket", "update_at_two_marked_coordinate_axes", "update_at_target_axis_marked_in_updates",
     "update_at_coordinate_count", "argfind_two_marked_outputs", "argfind_marked_count", "duplicate_vectorized_output_axis", "missing_output",
-    "implicit_output_ambiguous", "preserve_output_brackets_differ",
+    "implicit_output_ambiguous", "preserve_output_brackets_differ", "id_piece_count_differs",
 }
 
 
@@ -208,6 +208,20 @@ def rule_breaking(rng):
         ("kw_sequence_length_mismatch", "id", f"{C} ({A} {B})... {D} -> {C} {A}... {B}... {D}", [np.zeros((2,) + grid.shape + (3,))], {B: tuple(sizes)[:-1] + (2, 2, 2)}),
         ("kw_ellipsis_rank_mismatch", "mean", f"{C} [{A}...] {D}", [np.zeros((4,))], {A: 2}),
         ("kw_ellipsis_rank_mismatch", "add", f"{A}..., {A}... -> {A}...", [np.zeros((4, 4)), np.zeros((4, 4, 4))], {A: 4}),
+    ]
+    # einx.id pairs the pieces of its inputs with the pieces of its outputs one to one: fewer or more is a SemanticError
+    out += [
+        ("id_piece_count_differs", "id", f"{A}, {B} -> ({A} + {B}), {A}", [z(A), z(B)], {}),
+        ("id_piece_count_differs", "id", f"{A} {C}, {B} {C} -> ({A} + {B}) {C}, {B} {C}", [z(A, C), z(B, C)], {}),
+        ("id_piece_count_differs", "id", f"({A} + {B}) -> {A}, {B}, {A}", [np.zeros((sz[A] + sz[B],))], {A: sz[A]}),
+        ("id_piece_count_differs", "id", f"{A}, {B}, {C} -> ({A} + {B})", [z(A), z(B), z(C)], {}),
+    ]
+    # ill-formed updates of an EMPTY target (a zero-sized dimension in the first tensor)
+    out += [
+        ("empty_target_text_is_not_an_expression", "set_at", f"{A} [{H}] {C}, {P}, {P} {C} -> {A} [{H}] {C} ((", [np.zeros((0, sz[H], sz[C])), zi(P), z(P, C)], {}),
+        ("empty_target_marked_sets_differ", "add_at", f"{A} [{H}] {C}, {P}, {P} {C} -> {A} [{W}] {C}", [np.zeros((0, sz[H], sz[C])), zi(P), z(P, C)], {}),
+        ("empty_target_rank_mismatch", "subtract_at", f"{A} [{H}] {C} {D}, {P}, {P} {C} -> {A} [{H}] {C} {D}", [np.zeros((0, sz[H], sz[C])), zi(P), z(P, C)], {}),
+        ("empty_target_tensor_missing", "set_at", f"{A} [{H}] {C}, {P}, {P} {C} -> {A} [{H}] {C}", [np.zeros((0, sz[H], sz[C])), zi(P)], {}),
     ]
     # a size that is no positive integer, given under a name the description does not use: still an invalid call
     out += [
